@@ -494,7 +494,7 @@ PROPS["C14"] = {
     "floors": {"any": {"parse:ok": 200, "parse:error": 2000, "from_bytes:ok": 100, "from_bytes:error": 1000,
                        "input:random-text": 100, "input:generated-doc-mutant": 1000, "input:truncation": 1000,
                        "input:fixture-mutant": 100, "input:package-mutant": 1000, "input:random-bytes": 100,
-                       "input:shaped-wat-mutant": 100, "input:document-package-pairing": 100, "shaped-wat": 10,
+                       "input:shaped-wat-mutant": 100, "input:document-package-pairing": 100, "shaped-wat": 10, "shaped-binary": 1,
                        "chain:alias-chain": 3, "chain:list-chain": 3, "chain:use-chain": 3, "chain:include-chain": 3, "chain:nesting-inside-the-limit": 3}},
     "lanes": {"thorough": [{"name": "asan", "cases": 1500, "workers": 16, "budget_s": 900},
                            {"name": "miri", "cases": 2, "workers": 12, "budget_s": 1200}]},
